@@ -9,7 +9,8 @@ From RU Require Import Base.Prelude Base.Utf8 Base.Utf8Facts Model.AsciiSet Gen.
   Proofs.C06_WFI Proofs.C06_FragQuery Proofs.C06_HostNone Proofs.C06_Host Proofs.C06_Path Proofs.C06_Main
   Proofs.C05_Comp Proofs.C05_PathClean Proofs.C05_CompSteps Proofs.C05_CompHist
   Proofs.C06_Path Proofs.C06_Segments Proofs.C04_ParseTotal Proofs.C03_ReachParts
-  Proofs.C05_ParseUI Proofs.C05_ParseAll Proofs.C05_CompSteps2 Proofs.C05_CompReach Proofs.C05_ParseEx.
+  Proofs.C05_ParseUI Proofs.C05_ParseAll Proofs.C05_CompSteps2 Proofs.C05_CompReach Proofs.C05_ParseEx
+  Proofs.C03_WF Proofs.C06_Suffix Proofs.C05_BaseOk Proofs.C05_CompSteps3 Proofs.C05_FinEx Proofs.C05_Alphabet.
 
 (* ================= 1. encoder alphabet ================= *)
 
@@ -426,6 +427,117 @@ Example C05_components_parse_inhabited : parse_cinv_example_stmt.
 Proof. exact parse_cinv_example. Qed.
 Example C05_components_reach_inhabited : creach_example_stmt.
 Proof. exact creach_example. Qed.
+
+(* ---- every parse result is again a possible base.  base_ok u (Proofs/C04_ParseTotal.v) = wf_b u, and a special
+   scheme is followed by ":/" (the record is not cannot-be-a-base).  The second half needs no hypothesis on the host
+   functions and none on the input: bk u := st_is_special (scheme_type_of (b_scheme u)) = true ->
+   nnth (ser u) (scheme_end u + 1) = Some 47, from a base that is well formed and satisfies bk. *)
+Theorem C05_parse_special_slash : forall dbg hp hpo hd ovr base input u,
+  match base with Some b => wf_b b = true /\ bk b | None => True end ->
+  parse_url dbg hp hpo hd ovr base input = POk u -> bk u.
+Proof. exact parse_url_bk. Qed.
+Check C05_parse_special_slash : forall dbg hp hpo hd ovr base input u,
+  match base with Some b => wf_b b = true /\ bk b | None => True end ->
+  parse_url dbg hp hpo hd ovr base input = POk u -> bk u.
+Print Assumptions C05_parse_special_slash.
+
+(* with C03's parse_url_wf_all: the premises `base_ok b /\ host_text_ok b` of C03_parse_reachability, of
+   C05_components_parse and of C04's no-panic theorem for a base reproduce themselves on the result, so along chains
+   of parse and join they are needed for no link (C05_parse_join_chain below) *)
+Theorem C05_parse_base_ok : forall dbg hp hpo hd ovr base input u, HostWf hp hpo hd ->
+  match base with Some b => base_ok b = true /\ host_text_ok b | None => True end ->
+  parse_url dbg hp hpo hd ovr base input = POk u -> base_ok u = true /\ host_text_ok u.
+Proof. exact parse_url_base_ok. Qed.
+Check C05_parse_base_ok : forall dbg hp hpo hd ovr base input u, HostWf hp hpo hd ->
+  match base with Some b => base_ok b = true /\ host_text_ok b | None => True end ->
+  parse_url dbg hp hpo hd ovr base input = POk u -> base_ok u = true /\ host_text_ok u.
+Print Assumptions C05_parse_base_ok.
+
+(* PJ dbg hp hpo hd (Proofs/C05_CompSteps3.v): parse without base, and parse against ANY record of PJ - no premise
+   on the base.  Every such record is a possible base and satisfies wfh and the five clauses. *)
+Theorem C05_parse_join_chain : forall dbg hp hpo hd u, HostWf hp hpo hd -> PJ dbg hp hpo hd u ->
+  base_ok u = true /\ wfh u /\ components_clean dbg u.
+Proof.
+  intros dbg hp hpo hd u HW R. split; [exact (proj1 (pj_base_ok dbg hp hpo hd HW u R))|].
+  apply (creach3_components_pj dbg hp hpo hd HW u R).
+Qed.
+Check C05_parse_join_chain : forall dbg hp hpo hd u, HostWf hp hpo hd -> PJ dbg hp hpo hd u ->
+  base_ok u = true /\ wfh u /\ components_clean dbg u.
+Print Assumptions C05_parse_join_chain.
+
+(* ---- all 19 mutators, no gap left.  step_gate3 hp hpo hd u o u' (Proofs/C05_CompSteps3.v) = step_gate2 with
+     quirks set_host   : host_gate alone (outside F-C03-5 / F-C02-4) - a ':port' part in the value is covered
+                         (C06_Quirks.set_host_internal_port_post is the frame for set_host_internal with a new port);
+     Url::set_ip_host  : the argument is an address value (ip_arg: Ipv4Addr = u32, Ipv6Addr = eight u16) and the URL is
+                         outside F-C03-5; the hypothesis host_disp_ok hd h of step_gate on the argument is replaced by
+                         the hypothesis IpDisp hd on the Display function (addresses print as a non-empty text that does
+                         not start with ':' / '@'; C09_inst_IpDisp discharges it for the host model), and F-C02-4 cannot
+                         occur (an address is never the empty host). *)
+Theorem C05_components_step3 : forall dbg hp hpo hd u o u', HostWf hp hpo hd -> IpDisp hd ->
+  CInv dbg u -> step_gate3 hp hpo hd u o u' -> apply_op dbg hp hpo hd u o = Some u' ->
+  CInv dbg u' /\ components_clean dbg u'.
+Proof.
+  intros dbg hp hpo hd u o u' HW HI K G H. pose proof (cinv_step3 dbg hp hpo hd HW u o u' HI K G H) as K'.
+  split; [exact K'|]. destruct K' as [[W _] C]. exact (comp_ok_components dbg u' W C).
+Qed.
+Check C05_components_step3 : forall dbg hp hpo hd u o u', HostWf hp hpo hd -> IpDisp hd ->
+  CInv dbg u -> step_gate3 hp hpo hd u o u' -> apply_op dbg hp hpo hd u o = Some u' ->
+  CInv dbg u' /\ components_clean dbg u'.
+Print Assumptions C05_components_step3.
+
+(* CReach3 dbg hp hpo hd: parse; parse against a reached base with base_ok (automatically true when the base is
+   itself a parse / join result, C05_parse_base_ok; a premise only for a base that comes straight out of a mutator:
+   that the mutators keep "special scheme => not cannot-be-a-base" is not proved); a step_gate3 step of any of the 19
+   mutators.  A subset of Reachable (C05_reach3_sub). *)
+Theorem C05_components_reach3 : forall dbg hp hpo hd u, HostWf hp hpo hd -> IpDisp hd ->
+  CReach3 dbg hp hpo hd u -> wfh u /\ components_clean dbg u.
+Proof. intros dbg hp hpo hd u HW HI. exact (creach3_components dbg hp hpo hd HW HI u). Qed.
+Check C05_components_reach3 : forall dbg hp hpo hd u, HostWf hp hpo hd -> IpDisp hd ->
+  CReach3 dbg hp hpo hd u -> wfh u /\ components_clean dbg u.
+Print Assumptions C05_components_reach3.
+
+Theorem C05_reach3_sub : forall dbg hp hpo hd u, CReach3 dbg hp hpo hd u -> Reachable dbg hp hpo hd u.
+Proof. exact creach3_sub. Qed.
+Check C05_reach3_sub : forall dbg hp hpo hd u, CReach3 dbg hp hpo hd u -> Reachable dbg hp hpo hd u.
+Print Assumptions C05_reach3_sub.
+
+(* the hypotheses are met and the new steps are taken: (Proofs/C05_FinEx.v) with the host model of C02's examples
+   (HostWf, IpDisp): parse "http://h.x/a?q"; quirks set_host "o.x:81"; set_ip_host 1.2.3.4 ... - see fin_example_stmt *)
+Example C05_components_reach3_inhabited : fin_example_stmt.
+Proof. exact fin_example. Qed.
+
+(* ---- from the component clauses to the alphabet of the WHOLE serialization (first sentence of the property text).
+   alphabet_ok u (Proofs/C05_Alphabet.v) := ser u = A ++ pth ++ Z with path u = Some pth, A and Z inside 0x21..0x7E,
+   pth inside 0x20..0x7E, and pth inside 0x21..0x7E unless cannot_be_a_base u: U+0020 solely inside an opaque path.
+   It holds for every record with CInv whose bytes are inside 0x20..0x7E (C05_history: every reachable record) and
+   whose stored host text has no space - the serialization is read as the concatenation of the accessors (C03_concat).
+   What is missing for C05_history_sharp_statement along mutator histories is only that the host text of a reached
+   record has no space (true of every parse result: C05_bytes), see C05_alphabet_reach. *)
+Theorem C05_alphabet_of_components : forall dbg u, CInv dbg u -> Forall ok_or_space (ser u) ->
+  (has_host u = true -> ~ In 32 (piece u (host_start u) (host_end u))) -> alphabet_ok u.
+Proof. exact cinv_alphabet. Qed.
+Check C05_alphabet_of_components : forall dbg u, CInv dbg u -> Forall ok_or_space (ser u) ->
+  (has_host u = true -> ~ In 32 (piece u (host_start u) (host_end u))) -> alphabet_ok u.
+Print Assumptions C05_alphabet_of_components.
+
+(* the first sentence of the property text - only 0x21..0x7E, U+0020 solely inside an opaque path - for every record
+   of CReach3 (parse, join, gated steps of all 19 mutators) whose stored host text has no space; IpOKv hd: address
+   values print inside 0x21..0x7E.  GAP to C05_history_sharp_statement on CReach3: the condition on the host text of
+   the reached record (it holds for every parse result by C05_bytes and is kept by the mutators - they copy the host
+   text or write the Display of a parsed host / an address -, but this invariant is not proved along steps). *)
+Theorem C05_alphabet_reach : forall dbg hp hpo hd u, HostWf hp hpo hd -> HostOK hp hpo hd -> IpDisp hd -> IpOKv hd ->
+  CReach3 dbg hp hpo hd u ->
+  (has_host u = true -> ~ In 32 (piece u (host_start u) (host_end u))) -> alphabet_ok u.
+Proof. intros dbg hp hpo hd u HW HOK HI HV. exact (creach3_alphabet dbg hp hpo hd HW HOK HI HV u). Qed.
+Check C05_alphabet_reach : forall dbg hp hpo hd u, HostWf hp hpo hd -> HostOK hp hpo hd -> IpDisp hd -> IpOKv hd ->
+  CReach3 dbg hp hpo hd u ->
+  (has_host u = true -> ~ In 32 (piece u (host_start u) (host_end u))) -> alphabet_ok u.
+Print Assumptions C05_alphabet_reach.
+
+(* the hypotheses of C05_alphabet_reach are met (Proofs/C05_FinEx.v): HostOK, IpOKv for the example host functions, and
+   the reached record "http://1.2.3.4:81/w%20v" of C05_components_reach3_inhabited has a space-free host text *)
+Example C05_alphabet_reach_inhabited : fin_alphabet_stmt.
+Proof. exact fin_alphabet. Qed.
 
 (* ================= non-vacuity ================= *)
 Definition ex_hp (s : list N) : result host := Ok (HDomain s).
